@@ -508,6 +508,8 @@ def expand(case):
             ops.append(['reply', (i + 1) & 0xFFFF, i & 0xFFFF])
         for _ in range(k):
             ops.append(['exec', None])
+        # replies nobody waits for, delivered while the requests around the wrap (id 0 among them) are outstanding
+        ops += [list(o) for o in case.get('pre', [])]
         for j in reversed(range(k)):
             ops.append(['reply', (n + j + 1) & 0xFFFF, 7000 + j])
         ops += [list(o) for o in case.get('tail', [])]
@@ -1179,6 +1181,9 @@ def run(ctx):
         wraps.append(dict(kind='wrap-hold', variant='fifo', n=65560, hold=[0, 3], tail=[['reply', 1, 8], ['lost']]))
     # pipelining across the wrap (no request is long-lived)
     wraps.append(dict(kind='wrap-pipeline', variant='dict', n=65533, k=5, tail=[['exec', None], ['lost']]))
+    # ... and unsolicited / duplicate replies arrive while the request with id 0 is outstanding
+    wraps.append(dict(kind='wrap-pipeline', variant='dict', n=65533, k=5, pre=[['reply', 0x1234, 9999], ['reply', 7, 9998], ['reply', 3, 9997]],
+                      tail=[['reply', 0, 9996], ['lost']]))
     if not ctx.quick:
         wraps.append(dict(kind='wrap-pipeline', variant='dict', n=65535, k=3))
         wraps.append(dict(kind='wrap-pipeline', variant='dict', n=65530, k=12, tail=[['lost'], ['exec', None]]))
